@@ -61,6 +61,7 @@ type Upload struct {
 	Data   []byte
 	Algo   string
 	Closed bool
+	Short  bool // a chunk shorter than the announced minimum was received: it must have been the last
 }
 
 type Repo struct {
@@ -734,6 +735,19 @@ func (h *Host) upload(e *Entry) *Answer {
 				a.Header.Set("Location", h.location(e, e.Repo, u.ID))
 				a.Header.Set("Range", fmt.Sprintf("0-%d", max(len(u.Data)-1, 0)))
 				return a
+			}
+		}
+		if h.Feat.ChunkMin > 0 {
+			// a registry that announces a minimum chunk length enforces it: only the last chunk of
+			// a session may be shorter, so after a short chunk no further chunk is accepted
+			if u.Short {
+				a := st(416, "RANGE_INVALID")
+				a.Header.Set("Location", h.location(e, e.Repo, u.ID))
+				a.Header.Set("Range", fmt.Sprintf("0-%d", max(len(u.Data)-1, 0)))
+				return a
+			}
+			if len(e.Body) < h.Feat.ChunkMin {
+				u.Short = true
 			}
 		}
 		u.Data = append(u.Data, e.Body...)
